@@ -3,10 +3,14 @@
 proof:           lean/StepModel/Props/C15.lean - the decision table for every attribute position of every instance
                  shape at every position of a population (model: lean/StepModel/AttrNull.lean)
 regenerated tie: tools/extract.d/attrnull.py (pre-check of STEPattribute::STEPread: null characters, filler strings and
-                 readers, severities, `strict` defaults and forwarding, p21read exit rule) and tools/extract.d/stepfile.py
+                 readers, severities, `strict` defaults and forwarding, the read loop incl. its pre-TC branch, how
+                 STEPcomplex::STEPread merges the parts' errors, p21read exit rule) and tools/extract.d/stepfile.py
                  (AppendEntityErrorMsg, ReadInstance, ReadData2, AppendFile) -> Generated/{AttrNullGen,StepFileGen}.lean
 correspondence:  harness/h_p21.cc linked with generated schema libraries (and the real p21read built against the same
-                 library) vs lean exe m_c15 on populations with exactly one attribute replaced by `$` / nothing
+                 library) vs lean exe m_c15 on populations with exactly one attribute replaced by `$` / nothing; the
+                 pre-technical-corrigendum encoding (harness `readpre` = ReadExchangeFile( f, false )) on instances of
+                 entities with redeclared attributes: `*` / `$` / nothing / a literal at each redefining entry, each
+                 plain position unset, every truncation of the parameter list
 oracle:          the decision table of the statement applied to (kind, optional, strict) on what the implementation did
 """
 import concurrent.futures as cf
